@@ -426,6 +426,11 @@ where
     
     /// Memory pool for internal allocations
     memory_pool: Option<Arc<SecureMemoryPool>>,
+
+    /// Serializes get/put/remove/clear: each of them touches the index, the node array and the
+    /// free list under separate locks, so without this two callers interleave inside one
+    /// operation (wrong results) or take the locks in opposite order (deadlock)
+    op_lock: Mutex<()>,
 }
 
 impl<K, V> LruMap<K, V, NoOpEvictionCallback>
@@ -481,6 +486,7 @@ where
             stats: Arc::new(LruMapStatistics::new()),
             eviction_callback: NoOpEvictionCallback,
             memory_pool,
+            op_lock: Mutex::new(()),
         })
     }
 }
@@ -539,11 +545,13 @@ where
             stats: Arc::new(LruMapStatistics::new()),
             eviction_callback: callback,
             memory_pool,
+            op_lock: Mutex::new(()),
         })
     }
     
     /// Get a value by key, updating its position in the LRU list
     pub fn get(&self, key: &K) -> Option<V> {
+        let _op = self.op_lock.lock().ok()?;
         let hash_map = self.hash_map.read().ok()?;
         let node_idx = match hash_map.get(key) {
             Some(&idx) => idx,
@@ -575,6 +583,7 @@ where
     
     /// Insert or update a key-value pair
     pub fn put(&self, key: K, value: V) -> Result<Option<V>> {
+        let _op = self.op_lock.lock().map_err(|_| ZiporaError::out_of_memory(0))?;
         let hash = self.hash_key(&key);
         
         // Check if key already exists
@@ -627,6 +636,7 @@ where
     
     /// Remove a key-value pair
     pub fn remove(&self, key: &K) -> Option<V> {
+        let _op = self.op_lock.lock().ok()?;
         let mut hash_map = self.hash_map.write().ok()?;
         let node_idx = hash_map.remove(key)?;
         drop(hash_map);
@@ -688,6 +698,7 @@ where
     
     /// Clear all entries
     pub fn clear(&self) -> Result<()> {
+        let _op = self.op_lock.lock().map_err(|_| ZiporaError::out_of_memory(0))?;
         let mut hash_map = self.hash_map.write().map_err(|_| ZiporaError::out_of_memory(0))?;
         let mut nodes = self.nodes.write().map_err(|_| ZiporaError::out_of_memory(0))?;
         let mut free_nodes = self.free_nodes.lock().map_err(|_| ZiporaError::out_of_memory(0))?;
